@@ -183,14 +183,14 @@ func Worker(prop, engine, tier string, verifSeed uint64, from, step, total int, 
 		if id := findings.Match(rf); id != "" {
 			res.Known[id]++
 			if res.KnownRep[id] == "" {
-				p := filepath.Join(VerifDir(), "replays", fmt.Sprintf("known-%s-%s-%d-%d.json", prop, sanitize(id), verifSeed, i))
+				p := filepath.Join(replayDir(), fmt.Sprintf("known-%s-%s-%d-%d.json", prop, sanitize(id), verifSeed, i))
 				if err := writeJSON(p, rf); err == nil {
 					res.KnownRep[id] = p
 				}
 			}
 			continue
 		}
-		p := filepath.Join(VerifDir(), "replays", fmt.Sprintf("%s-%s-%d-%d.json", prop, engine, verifSeed, i))
+		p := filepath.Join(replayDir(), fmt.Sprintf("%s-%s-%d-%d.json", prop, engine, verifSeed, i))
 		if err := writeJSON(p, rf); err != nil {
 			res.Fatal = "cannot write replay: " + err.Error()
 			return res
@@ -233,6 +233,16 @@ func writeJSON(path string, v any) error {
 
 // Replay re-executes a replay file. Returns the reproduced violation (or nil)
 // and whether class and event-log digest match the file.
+// replayDir is <verif>/replays, or VERIF_REPLAY_DIR when set (evaluations of seeded changes in a
+// scratch checkout must not overwrite the replays of the real tree).
+func replayDir() string {
+	if d := os.Getenv("VERIF_REPLAY_DIR"); d != "" {
+		_ = os.MkdirAll(d, 0o755)
+		return d
+	}
+	return filepath.Join(VerifDir(), "replays")
+}
+
 func Replay(path string) (rf *ReplayFile, v *Violation, same bool, err error) {
 	b, err := os.ReadFile(path)
 	if err != nil {
@@ -255,6 +265,12 @@ func Replay(path string) (rf *ReplayFile, v *Violation, same bool, err error) {
 		return rf, nil, false, nil
 	}
 	same = v.Class == rf.Class && info.LogDigest() == rf.LogDigest
+	if os.Getenv("VERIF_REPLAY_TWICE") != "" {
+		// development aid: a second execution in the same process must give the same log
+		t2 := ReplayTape(rf.RunSeed, rf.Tapes)
+		_, info2, _ := runOnce(e, t2, rf.Property, rf.Tier, true)
+		fmt.Fprintf(os.Stderr, "first %s second %s file %s\n", info.LogDigest(), info2.LogDigest(), rf.LogDigest)
+	}
 	if os.Getenv("VERIF_REPLAY_TRACE") != "" {
 		for _, l := range info.Trace {
 			fmt.Fprintln(os.Stderr, "  "+l)
@@ -513,7 +529,11 @@ func Check(o CheckOptions) int {
 	}
 	ev := Evidence{PropertyID: o.Prop, Tier: o.Tier, Seed: int64(o.Seed), Level: spec.Level, Coverage: cov,
 		Assumptions: o.Assume, WallS: wall, Violations: len(confirmed)}
-	if err := writeJSON(filepath.Join(VerifDir(), "evidence", o.Prop+".json"), ev); err != nil {
+	evDir := filepath.Join(VerifDir(), "evidence")
+	if d := os.Getenv("VERIF_REPLAY_DIR"); d != "" {
+		evDir = d // scratch evaluation: keep the evidence of the real tree untouched
+	}
+	if err := writeJSON(filepath.Join(evDir, o.Prop+".json"), ev); err != nil {
 		fmt.Fprintf(os.Stderr, "cannot write evidence: %v\n", err)
 		return 2
 	}
